@@ -223,32 +223,39 @@ void list_output_webasm(
 
   Memory *memory = &asm_context->memory;
 
-  count = disasm_webasm(
-    memory,
-    start,
-    instruction,
-    sizeof(instruction),
-    asm_context->flags,
-    &cycles_min,
-    &cycles_max);
-
-  hex[0] = 0;
-
-  for (n = 0; n < count; n++)
+  while (start < end)
   {
-    opcode = memory->read8(start + n);
+    count = disasm_webasm(
+      memory,
+      start,
+      instruction,
+      sizeof(instruction),
+      asm_context->flags,
+      &cycles_min,
+      &cycles_max);
 
-    snprintf(temp, sizeof(temp), "%02x ", opcode);
-    strcat(hex, temp);
-  }
+    hex[0] = 0;
 
-  fprintf(asm_context->list, "0x%04x: %-20s %-40s\n", start, hex, instruction);
+    for (n = 0; n < count; n++)
+    {
+      opcode = memory->read8(start + n);
 
-  opcode = memory->read8(start);
+      snprintf(temp, sizeof(temp), "%02x ", opcode);
+      strcat(hex, temp);
+    }
 
-  if (opcode == 0x0e)
-  {
-    start += print_table(&asm_context->memory, start + 1, asm_context->list);
+    fprintf(asm_context->list, "0x%04x: %-20s %-40s\n", start, hex, instruction);
+
+    opcode = memory->read8(start);
+
+    if (opcode == 0x0e)
+    {
+      start += print_table(&asm_context->memory, start + 1, asm_context->list);
+    }
+
+    if (count < 1) { break; }
+
+    start += count;
   }
 }
 
